@@ -206,7 +206,8 @@ let () =
                (fun s -> String.concat "," (List.map (fun n -> string_of_int (ii n)) (List.sort compare s.f_names)) ^ "#" ^
                          String.concat "," (List.sort compare (List.map (fun (g, p) -> Printf.sprintf "%d>%d" (ii g) (ii p)) s.f_d2p)) ^ "#" ^
                          show_content_mem s.f_cas ^ "#" ^ show_tags s.f_res.r_index ^ "#" ^ show_graph s.f_graph ^ "#" ^
-                         String.concat "," (List.sort compare (List.map (fun (p, _) -> string_of_int (ii p)) s.f_disk))) evs probe
+                         String.concat "," (List.sort compare (List.map (fun (p, c) -> Printf.sprintf "%d=%d" (ii p) (ii c.b_hash)) s.f_disk)) ^ "#" ^
+                         String.concat "," (List.sort compare (List.map (fun (k, _) -> show_key_t (key_t k)) s.f_graph.g_nodes))) evs probe
            else
            match store with
            | "mem" ->
